@@ -228,6 +228,7 @@ pub fn case_spec(case: &Case, input: &[u8]) -> RunSpec {
         err: case.err.clone(),
         hash_seed: case.hash_seeds.first().copied(),
         max_events: 400_000,
+        files: Vec::new(),
     }
 }
 
@@ -291,4 +292,82 @@ pub fn consumed_when_out_reached(events: &[Event], n: usize) -> Option<usize> {
         }
     }
     None
+}
+
+/// The byte ranges of the stream between file cuts.
+pub fn split_files(case: &Case) -> Vec<Vec<u8>> {
+    let stream = case.stream();
+    let mut files = Vec::new();
+    let mut prev = 0;
+    for c in case.cuts() {
+        files.push(stream[prev..c].to_vec());
+        prev = c;
+    }
+    files.push(stream[prev..].to_vec());
+    files
+}
+
+impl Ctx {
+    /// `n` fresh paths for file arguments of one scenario.
+    pub fn fresh_paths(&mut self, n: usize) -> Vec<String> {
+        (0..n)
+            .map(|_| self.fresh_path("f").to_string_lossy().to_string())
+            .collect()
+    }
+}
+
+/// A run of the case on simulated file arguments (hook H2): `datas[i]` delivered according
+/// to `plans[i]` (missing plans = whole, fault-free) under the given paths.
+pub fn sim_files_spec(case: &Case, paths: &[String], datas: &[Vec<u8>], plans: &[FilePlan]) -> RunSpec {
+    let mut argv = case.argv();
+    argv.push("--".into());
+    argv.extend(paths.iter().cloned());
+    let mut spec = RunSpec::plain(&argv, b"");
+    spec.hash_seed = case.hash_seeds.first().copied();
+    spec.out = case.out.clone();
+    spec.err = case.err.clone();
+    spec.files = paths
+        .iter()
+        .zip(datas.iter())
+        .enumerate()
+        .map(|(i, (p, d))| SimFile {
+            path: p.clone(),
+            data: d.clone(),
+            plan: plans.get(i).cloned().unwrap_or_default(),
+            byte_budget: 0,
+        })
+        .collect();
+    spec
+}
+
+/// Remove every occurrence of "<path>:" (locations in diagnostics) and of the bare path.
+pub fn strip_paths(text: &[u8], paths: &[String]) -> Vec<u8> {
+    let mut s = text.to_vec();
+    for p in paths {
+        let needle = format!("{p}:").into_bytes();
+        let mut out = Vec::with_capacity(s.len());
+        let mut i = 0;
+        while i < s.len() {
+            if s[i..].starts_with(&needle) {
+                i += needle.len();
+            } else {
+                out.push(s[i]);
+                i += 1;
+            }
+        }
+        s = out;
+    }
+    s
+}
+
+/// A random delivery plan for a simulated file of `len` bytes.
+pub fn gen_file_plan(rng: &mut Rng, len: usize) -> FilePlan {
+    let d = gen_delivery(rng, len);
+    FilePlan {
+        chunks: d.chunks,
+        eintr: d.eintr,
+        fault: None,
+        endless: None,
+        open_fails: None,
+    }
 }
